@@ -79,6 +79,20 @@ var props = []*prop{
 		Rule:     "one case = one simulated run: real TarsServer with pool 0/1/2/4 and queue capacity 1/3/1000, 1-4 raw clients pipelining 0-7 requests (handler durations 0-2500ms, some one-way, some sent late into the drain window), Shutdown at a drawn instant with a drawn context (0.7-60s); checked separately for pool 0 and pool N; distinct = distinct (event-log hash, switch trace hash); non-trivial = at least one preemption or fired fault",
 	},
 	{
+		ID: "C13", Binary: "simcore", Quick: 8000, Thorough: 200000, RunWall: 60 * time.Second,
+		Variants: []variant{{Scenario: "c13", Weight: 1}},
+		Real:     []string{"tars/selector (BuildStaticWeightList), roundrobin, random, modhash, consistenthash (instrumented from the working tree)"},
+		Stub:     commonStub,
+		Rule:     "one case = one simulated run: one strategy (round-robin, random, mod-hash, consistent-hash; weighted or not) over a universe of 2-6 hosts with tape-drawn weights (positive, zero, negative) and weight types; 1-3 selecting goroutines and 1-2 updating goroutines (Refresh/Add/Remove) interleaved at statement granularity, the invoke/return history checked with porcupine against the member-set model; then a sequential phase checking strict rotation / weighted cycle composition of round-robin on a set reached through a drawn history; distinct = distinct (event-log hash, switch trace hash); non-trivial = at least one preemption",
+	},
+	{
+		ID: "C14", Binary: "simcore", Quick: 4000, Thorough: 100000, RunWall: 60 * time.Second,
+		Variants: []variant{{Scenario: "c14", Weight: 1}},
+		Real:     []string{"tars/selector/consistenthash, modhash (instrumented from the working tree)"},
+		Stub:     append([]string{"reference: independently built Ketama ring / mod-hash slot model in the harness"}, commonStub...),
+		Rule:     "one case = one simulated run: two selector instances, one driven by a tape-drawn history of 1-25 add/remove/refresh events, the other reaching the same set by another route; ~190 lookups (ring points and their +-1 neighbours, 0, MaxUint32, random codes) compared between the instances and with an independently built ring; then removal and addition of one endpoint (minimal disruption); distinct = distinct event-log hash; non-trivial = every run (each has a distinct drawn history)",
+	},
+	{
 		ID: "C19", Binary: "simcore", Quick: 6000, Thorough: 120000, RunWall: 60 * time.Second,
 		Variants: []variant{{Scenario: "c19", Weight: 1}},
 		Real:     []string{"tars/util/gpool (instrumented from the working tree)"},
